@@ -363,7 +363,7 @@ func ptRenderOrder(c *Ctx, pt *ssa.Function) {
 	// an anonymous template stays anonymous: the name stamped is the template's own name, or empty
 	for _, m := range calls(pt, xp+pkgComposite+".RenderComposedResourceMetadata") {
 		a := cfgx.CallArgs(m)
-		good := false
+		good, sawDeref := false, false
 		flow.Default.Any(a[len(a)-1], func(v ssa.Value) bool {
 			ci, ok := v.(*ssa.Call)
 			if !ok {
@@ -374,23 +374,36 @@ func ptRenderOrder(c *Ctx, pt *ssa.Function) {
 				n = n[:i]
 			}
 			if strings.HasSuffix(n, "ptr.Deref") && len(ci.Call.Args) == 2 {
+				sawDeref = true
 				if d, isC := cfgx.ConstString(ci.Call.Args[1]); isC && d == "" {
 					good = true
 				}
 			}
 			return false
 		})
-		if !good {
+		if !good && !sawDeref {
 			// written out: `if t.Name != nil { n = *t.Name }` - every leaf is a load of the template name or ""
 			good = true
-			for _, l := range leaves(a[len(a)-1]) {
-				_, p, _ := flow.AccessPathC(l)
-				if !strings.HasSuffix(p, "Name") {
-					if cv, ok := l.(*ssa.Convert); ok {
-						if _, p2, _ := flow.AccessPathC(cv.X); strings.HasSuffix(p2, "Name") {
-							continue
-						}
+			nv := a[len(a)-1]
+			for i := 0; i < 3; i++ {
+				switch x := nv.(type) {
+				case *ssa.Convert:
+					nv = x.X
+				case *ssa.ChangeType:
+					nv = x.X
+				}
+			}
+			for _, l := range leaves(nv) {
+				// the template's Name field, read through whatever temporaries the inlined Deref left
+				if !flow.Default.Any(l, func(x ssa.Value) bool {
+					switch y := x.(type) {
+					case *ssa.FieldAddr:
+						return fieldName(y.X.Type(), y.Field) == "Name"
+					case *ssa.Field:
+						return fieldName(y.X.Type(), y.Field) == "Name"
 					}
+					return false
+				}) {
 					good = false
 				}
 			}
